@@ -21,7 +21,7 @@ RULE = ("cases from rng(seed, 13, 0, i): graphs of SE(2)/SE(3) poses and R^2/R^3
         "incl. 1e-300..1e300, subnormals, negative / 2^62 / 2^64 ids, w<0 quaternions, dense information; 1..5 export/import cycles (sometimes with in-place edits of the loaded graph between cycles; sometimes an edge listed twice; the first written file is also read with registered edge types that recognise built-in lines (EdgeOdometry itself / a subclass, listed once or twice): still one edge per line). pinned: files of exactly 999/1000/1001/1024/2000/4096/8192 lines. every 6th case checks that inexpressible "
         "content (R^n odometry, R^n->R^n landmark edges, SE(2) landmark edge with a non-identity - also tiny - offset, SE(3) landmark edge whose offset id is None (also while a different offset is registered under id 0) / unregistered) is refused with an error at export or import instead of silently becoming a different graph. distinct = spec fingerprint; non-trivial = >= 2 edges and "
         ">= 1 non-integer value.")
-REQ = ["class:reimport_after_editing_an_earlier_import", "class:reimport_with_registered_types_that_parse_builtin_lines", "class:file_of_exactly_1000_lines", "refusal_variant:lm_se3_offset_id_none_param0", "eval:roundtrip-structure", "eval:roundtrip-vertex-poses", "eval:roundtrip-edge-measurements", "eval:roundtrip-information", "eval:roundtrip-offsets", "eval:roundtrip-chi2",
+REQ = ["class:numpy_print_options_set_by_the_application", "class:reimport_after_editing_an_earlier_import", "class:reimport_with_registered_types_that_parse_builtin_lines", "class:file_of_exactly_1000_lines", "refusal_variant:lm_se3_offset_id_none_param0", "eval:roundtrip-structure", "eval:roundtrip-vertex-poses", "eval:roundtrip-edge-measurements", "eval:roundtrip-information", "eval:roundtrip-offsets", "eval:roundtrip-chi2",
        "eval:file-tokens-exact", "eval:element-level-roundtrip", "eval:inexpressible-content-refused", "class:family:2d", "class:family:3d", "class:family:both", "class:extreme_values", "class:meas_quat_wneg",
        "class:offset_rotated", "class:cycles>1", "class:huge_ids", "class:identical_parallel_edges", "class:edited_in_place_between_cycles"]
 PLAN = {
@@ -306,10 +306,18 @@ def roundtrip_case(ctx, i, rng):
     d = tempfile.mkdtemp(prefix="c13-", dir=os.environ.get("VF_SCRATCH"))
     try:
         g = g0
+        printopts = bool(rng.random() < 0.25)
+        if printopts:
+            ctx.count("class:numpy_print_options_set_by_the_application")
         for c in range(1, cycles + 1):
             path = os.path.join(d, "g%d.g2o" % c)
             try:
-                g.to_g2o(path)
+                if printopts:
+                    # display settings of the application (np.set_printoptions) are not a file format: the export carries full precision regardless
+                    with np.printoptions(precision=3, suppress=True, threshold=5, linewidth=40, formatter={"float_kind": lambda x: "%.2f" % x}):
+                        g.to_g2o(path)
+                else:
+                    g.to_g2o(path)
             except Exception as ex:
                 ctx.check("roundtrip-structure", False, dict(feats, exception=type(ex).__name__, stage="export"), {"message": str(ex)[:300], "cycle": c}, case)
                 return
@@ -350,6 +358,9 @@ def roundtrip_case(ctx, i, rng):
                 try:
                     gc = M.Graph.from_g2o(path, custom_edge_types=list(reg))
                     okc = len(gc._edges) == len(g._edges) and len(gc._vertices) == len(g._vertices)
+                    if okc and reg[0] is custom.OverridingOdometry:
+                        # registered types are asked first: every 2-D odometry line comes back as the registered type, not as the built-in one
+                        okc = all(type(ec) is custom.OverridingOdometry for ec, eg in zip(gc._edges, g._edges) if type(eg) is M.EdgeOdometry and isinstance(eg.estimate, M.PoseSE2))
                     why = {"edges": [len(gc._edges), len(g._edges)], "registered": [t.__name__ for t in reg]}
                     if okc:
                         with np.errstate(all="ignore"):
